@@ -11,6 +11,6 @@ func genC01(o *Out) {
 		o.errf("base/vote.go: %v", err)
 		return
 	}
-	o.pinFunc(f, "", "FindMajority", "findMajorityHash")
-	o.pinFunc(f, "", "FindVoteResult", "findVoteResultHash")
+	o.pin(f, "", "FindMajority")
+	o.pin(f, "", "FindVoteResult")
 }
